@@ -25,7 +25,18 @@ import (
 	"csverif/internal/prng"
 )
 
-const VerifDir = "/verif"
+// VerifDir / RepoDir: where the verification tree and the repository under test live. The registered checks
+// use the defaults; VERIF_DIR / VERIF_REPO let a scratch copy (seed evaluation in parallel, background runs)
+// work on its own pair of directories.
+var VerifDir = envOr("VERIF_DIR", "/verif")
+var RepoDir = envOr("VERIF_REPO", "/repo")
+
+func envOr(k, d string) string {
+	if v := os.Getenv(k); v != "" {
+		return v
+	}
+	return d
+}
 
 type Case struct {
 	Stream string
@@ -557,7 +568,7 @@ func (c *Ctx) Finish(rule string, trusted []string, assumptions []string) int {
 	case len(fresh) > 0:
 		doc := map[string]interface{}{"property": c.Prop, "tier": c.Tier, "seed": c.Seed, "kind": "failing-input",
 			"violations": fresh, "broken_obligations": c.BrokenProof, "disagreements": c.Disagreements,
-			"how_to_replay": fmt.Sprintf("cd /verif && VERIF_SEED=%d ./check %s --tier %s", c.Seed, c.Prop, c.Tier)}
+			"how_to_replay": fmt.Sprintf("cd "+VerifDir+" && VERIF_SEED=%d ./check %s --tier %s", c.Seed, c.Prop, c.Tier)}
 		writeJSON(replay, doc)
 		fmt.Printf("VIOLATION property=%s replay=%s\n", c.Prop, replay)
 		exit = 1
@@ -569,7 +580,7 @@ func (c *Ctx) Finish(rule string, trusted []string, assumptions []string) int {
 		doc := map[string]interface{}{"property": c.Prop, "tier": c.Tier, "seed": c.Seed, "kind": kind,
 			"broken_obligations": c.BrokenProof, "disagreements": c.Disagreements,
 			"note":          "no failing input for the property was found on the implementation; the theorem/bridge lemma/correspondence stream named here no longer checks, so the property is no longer shown to hold",
-			"how_to_replay": fmt.Sprintf("cd /verif && VERIF_SEED=%d ./check %s --tier %s", c.Seed, c.Prop, c.Tier)}
+			"how_to_replay": fmt.Sprintf("cd "+VerifDir+" && VERIF_SEED=%d ./check %s --tier %s", c.Seed, c.Prop, c.Tier)}
 		writeJSON(replay, doc)
 		fmt.Printf("VIOLATION property=%s replay=%s no-failing-input-found\n", c.Prop, replay)
 		exit = 1
@@ -580,7 +591,7 @@ func (c *Ctx) Finish(rule string, trusted []string, assumptions []string) int {
 	cov := map[string]interface{}{
 		"obligations":                   c.Obligations,
 		"discharged":                    c.Discharged,
-		"checker_cmd":                   "cd /verif/lean && lake build Csproto.Props." + c.Prop + " Csproto.Audit." + c.Prop + " && lake env lean Csproto/Audit/" + c.Prop + ".lean   (thorough: + lake env leanchecker Csproto.Props." + c.Prop + ")",
+		"checker_cmd":                   "cd " + VerifDir + "/lean && lake build Csproto.Props." + c.Prop + " Csproto.Audit." + c.Prop + " && lake env lean Csproto/Audit/" + c.Prop + ".lean   (thorough: + lake env leanchecker Csproto.Props." + c.Prop + ")",
 		"trusted_base":                  trusted,
 		"axioms_by_theorem":             c.Axioms,
 		"facts_regenerated":             c.Facts,
